@@ -91,11 +91,11 @@ inductive FmtRes
   deriving DecidableEq, Repr
 
 /-- the three ways to rewrite in place -/
-inductive Mode | replace | noBackup | oEqualsF
+inductive FsMode | replace | noBackup | oEqualsF
   deriving DecidableEq, Repr
 
 /-- `!no_backup` in `do_source_file` (`-o X -f X` passes `no_backup = false`, like `--replace`) -/
-def Mode.backup : Mode → Bool
+def FsMode.backup : FsMode → Bool
   | .noBackup => false
   | _ => true
 
@@ -138,7 +138,7 @@ def md5Part (fx : Fix) (h : Bytes → Bytes) (k : Prog) : Prog :=
 
 /-- `do_source_file` after a successful `fclose(pfout)`: md5 (old position), compare, unlink or
     rename, md5 (new position); `keep_mtime` is not modelled (`--mtime` not given). -/
-def finishPart (fx : Fix) (mode : Mode) (h : Bytes → Bytes) : Prog :=
+def finishPart (fx : Fix) (mode : FsMode) (h : Bytes → Bytes) : Prog :=
   let md5K (k : Prog) : Prog := if mode.backup then md5Part fx h k else k
   let tail : Prog := if fx.md5AfterRename then md5K (.done EX_OK) else .done EX_OK
   let body : Prog :=
@@ -148,7 +148,7 @@ def finishPart (fx : Fix) (mode : Mode) (h : Bytes → Bytes) : Prog :=
   if fx.md5AfterRename then body else md5K body
 
 /-- `uncrustify_file(fm, pfout, …)` writing to the temp file, then `fclose(pfout)` -/
-def fmtPart (fx : Fix) (mode : Mode) (h : Bytes → Bytes) (r : FmtRes) : Prog :=
+def fmtPart (fx : Fix) (mode : FsMode) (h : Bytes → Bytes) (r : FmtRes) : Prog :=
   match r with
   | .fail st part => .eff (.write .tmp part) (.done st) (.done st)   -- exit(st) inside uncrustify_file
   | .ok out =>
@@ -157,7 +157,7 @@ def fmtPart (fx : Fix) (mode : Mode) (h : Bytes → Bytes) (r : FmtRes) : Prog :
 
 /-- `make_folders(filename_tmp)`, `fopen(filename_tmp,"wb")`, the formatter and everything after it
     (the part of `do_source_file` that follows the backup) -/
-def restPart (fx : Fix) (mode : Mode) (h : Bytes → Bytes) (r : FmtRes) : Prog :=
+def restPart (fx : Fix) (mode : FsMode) (h : Bytes → Bytes) (r : FmtRes) : Prog :=
   .mkdirs                                            -- make_folders(filename_tmp)
     (.eff (.creat .tmp)                              -- fopen(filename_tmp, "wb")
       (fmtPart fx mode h r)
@@ -173,7 +173,7 @@ def backupPart (fx : Fix) (orig : Bytes) (rest : Prog) : Prog :=
 /-- `do_source_file(filename_in, filename_out = filename_in, …, no_backup, keep_mtime = false)`.
     `F` = the formatter as a function of the bytes loaded, `h` = content of the md5 file that
     describes given bytes (abstract; the stored md5 "matches" iff the md5 file equals `h orig`). -/
-def doSourceFile (fx : Fix) (mode : Mode) (F : Bytes → FmtRes) (h : Bytes → Bytes) : Prog :=
+def doSourceFile (fx : Fix) (mode : FsMode) (F : Bytes → FmtRes) (h : Bytes → Bytes) : Prog :=
   .load .target                                      -- load_mem_file(filename_in, fm)
     (fun orig =>
       let rest : Prog := restPart fx mode h (F orig)
